@@ -80,13 +80,15 @@ Definition fourcc (t : N) : bytes := be 4 t.
 (* CAISaltContentBox::write_box *)
 Definition enc_salt (s : bytes) : bytes := be 4 (HEADER_SIZE + len s) ++ fourcc W_C2SH ++ s.
 
+Definition enc_oid (o : option N) : bytes := match o with Some i => be 4 i | None => [] end.
+Definition enc_osig (o : option bytes) : bytes := match o with Some s => s | None => [] end.
+Definition enc_osalt (o : option bytes) : bytes := match o with Some s => enc_salt s | None => [] end.
+
 (* JUMBFDescriptionBox::write_box_payload *)
 Definition desc_payload (d : desc) : bytes :=
   d_uuid d ++ [d_tog d]
   ++ (if has_text (d_label d) then d_label d ++ [0] else [])
-  ++ (match d_id d with Some i => be 4 i | None => [] end)
-  ++ (match d_sig d with Some s => s | None => [] end)
-  ++ (match d_salt d with Some s => enc_salt s | None => [] end).
+  ++ enc_oid (d_id d) ++ enc_osig (d_sig d) ++ enc_osalt (d_salt d).
 
 (* box_payload_size = ByteCounter over write_box_payload *)
 Definition desc_size (d : desc) : N := HEADER_SIZE + len (desc_payload d).
@@ -545,3 +547,48 @@ Definition box_report (b : bytes) : report :=
 
 (* for model-generated trees: the model's own serialisation, and the report on it *)
 Definition tree_report (t : jbox) : bytes * bool * report := (enc t, shape t, box_report (enc t)).
+
+(* ------------------------------------------------------------------ compact reports for long inputs: the printed tree and
+   the bytes are replaced by (length, checksum) of a canonical printing; the driver computes the same from the
+   implementation's output *)
+
+Definition cksum (l : bytes) : N := fold_left (fun a b => (a * 257 + b + 1) mod 4294967291) l 7.
+Definition digest (l : bytes) : N * N := (len l, cksum l).
+
+Definition pr_bytes (x : bytes) : bytes := be 8 (len x) ++ x.
+Definition pr_obytes (o : option bytes) : bytes := match o with Some x => 1 :: pr_bytes x | None => [0] end.
+Definition pr_oN (o : option N) : bytes := match o with Some i => 1 :: be 4 i | None => [0] end.
+
+Fixpoint print_tree (b : jbox) : bytes :=
+  match b with
+  | Super d cs =>
+    1 :: pr_bytes (d_uuid d) ++ [d_tog d] ++ pr_bytes (d_label d) ++ pr_oN (d_id d) ++ pr_obytes (d_sig d) ++ pr_obytes (d_salt d)
+      ++ be 4 (len cs) ++ concat (map print_tree cs)
+  | Json x => 2 :: pr_bytes x
+  | Cbor x => 3 :: pr_bytes x
+  | Free x => 4 :: pr_bytes x
+  | Jp2c x => 5 :: pr_bytes x
+  | Brob x => 6 :: pr_bytes x
+  | Bidb x => 7 :: pr_bytes x
+  | Uuid u x => 8 :: pr_bytes u ++ pr_bytes x
+  | Bfdb g m f => 9 :: g :: pr_bytes m ++ pr_obytes f
+  end.
+
+Inductive dsecond := DSame | DOther (t e : N * N) (same_bytes : bool) | DSecondErr (e : perr) | DSecondPanic | DSecondFuel.
+Inductive dreport := DOk (t e : N * N) (same_as_input : bool) (s : dsecond) | DErr (e : perr) | DPanic | DFuel.
+
+Definition box_digest (b : bytes) : dreport :=
+  match decode b with
+  | Ok t =>
+    let e := enc t in
+    DOk (digest (print_tree t)) (digest e) (bytes_eqb e b)
+        (match decode e with
+         | Ok t2 => if jbox_eqb t t2 then DSame else DOther (digest (print_tree t2)) (digest (enc t2)) (bytes_eqb (enc t2) e)
+         | Err x => DSecondErr x
+         | Panic => DSecondPanic
+         | OutOfFuel => DSecondFuel
+         end)
+  | Err x => DErr x
+  | Panic => DPanic
+  | OutOfFuel => DFuel
+  end.
